@@ -7,7 +7,8 @@ CONSTANTS
   TagCounts = {2}
   LeafMode = "series"
   Shape = "leaf"
+  SkipName = TRUE
   PredKeys = {}
   PredVals = {}
-INVARIANTS KeyRoundTrips ModelAgreesUnlessMeasEq
+INVARIANTS KeyRoundTrips ModelAgrees
 CHECK_DEADLOCK FALSE
